@@ -49,6 +49,10 @@ type Op struct {
 	Buf     int    `json:"buf,omitempty"`
 	Kind    string `json:"kind,omitempty"`
 	Carrier string `json:"carrier,omitempty"`
+	// listener scenarios (listen.go): name of the call, session id, expected peer address
+	C    string `json:"c,omitempty"`
+	Sid  string `json:"sid,omitempty"`
+	From string `json:"from,omitempty"`
 }
 
 type Proc struct {
@@ -69,6 +73,7 @@ type Scenario struct {
 	MaxPre  int            `json:"maxpre,omitempty"`
 	MaxRuns int            `json:"maxruns,omitempty"`
 	Bulk    bool           `json:"bulk,omitempty"` // log one write event for a run of equal writes
+	Mode    string         `json:"mode,omitempty"` // "listen": Accept / Expect / Listener.Close scenarios (listen.go)
 }
 
 const sid = "s"
@@ -198,6 +203,7 @@ type World struct {
 	hang    bool
 	smu     sync.Mutex
 	serveWG sync.WaitGroup
+	lsn     *lsnState // listener scenarios only
 }
 
 func newWorld(sc Scenario, seed int64) *World {
@@ -275,7 +281,15 @@ func (w *World) handler(e string) xmpp.Handler {
 			}
 		}
 		if requestLike(start.Name.Local, typ) {
-			w.lg.Add(vt.Ev{"ev": "deliver", "e": e, "id": id})
+			ev := vt.Ev{"ev": "deliver", "e": e, "id": id}
+			if w.lsn != nil {
+				w.lsn.decorate(ev, "")
+			}
+			w.lg.Add(ev)
+		}
+		if w.lsn != nil && e == "b" {
+			w.lsn.setServing(true)
+			defer w.lsn.setServing(false)
 		}
 		defer func() {
 			if p := recover(); p != nil {
@@ -364,7 +378,11 @@ func (w *World) emit(to string, ts *tapState, inj bool) {
 		if typ == "error" {
 			res = "error"
 		}
-		w.lg.Add(vt.Ev{"ev": "reply", "to": to, "id": id, "carrier": ts.name, "res": res, "cond": ts.cond})
+		ev := vt.Ev{"ev": "reply", "to": to, "id": id, "carrier": ts.name, "res": res, "cond": ts.cond}
+		if w.lsn != nil {
+			w.lsn.decorate(ev, "")
+		}
+		w.lg.Add(ev)
 		return
 	}
 	e := vt.Ev{"ev": "wire", "to": to, "id": id, "carrier": ts.name, "inj": inj, "kind": "other", "sid": "", "seq": 0, "n": 0, "offs": []int{}, "ok": true}
@@ -390,6 +408,13 @@ func (w *World) emit(to string, ts *tapState, inj bool) {
 				w.wirePos[to] += len(raw)
 			}
 		}
+	}
+	if w.lsn != nil {
+		who := ""
+		if w.sched != nil {
+			who = w.sched.Who()
+		}
+		w.lsn.decorate(e, who)
 	}
 	w.lg.Add(e)
 }
@@ -701,7 +726,7 @@ func resetOf(sc Scenario) vt.Ev {
 			mb[e] = bs // documented by SetReadBuffer
 		}
 	}
-	return vt.Ev{"bs": bs, "carrier": sc.Carrier, "maxbuf": mb, "listen": sc.Listen}
+	return vt.Ev{"bs": bs, "carrier": sc.Carrier, "maxbuf": mb, "listen": sc.Listen, "mode": sc.Mode}
 }
 
 // runSeq: one goroutine performs the ops in program order and waits for both serve loops
@@ -780,6 +805,9 @@ func runSeq(sc Scenario, seed int64) result {
 
 // runSched: one schedule under the single-runner scheduler.
 func runSched(sc Scenario, seed int64, choices []int) result {
+	if sc.Mode == "listen" {
+		return runListen(sc, seed, choices)
+	}
 	w := newWorld(sc, seed)
 	w.start()
 	sched := vt.NewSched()
